@@ -296,6 +296,109 @@ replay_clone(bool top)
 	VP_DONE();
 }
 
+/* nni_url_default_port: the scheme string of the counterexample in a heap block of exactly
+ * n+1 bytes; result = the port of the table entry the scheme names (with the optional
+ * address-family suffix 4 / 6), 0 for every other string */
+static int
+replay_port(void)
+{
+	static const struct { const char *s; unsigned port; } tab[] = { { "git", 9418 }, { "gopher", 70 }, { "http", 80 }, { "https", 443 },
+		{ "ssh", 22 }, { "telnet", 23 }, { "ws", 80 }, { "ws4", 80 }, { "ws6", 80 }, { "wss", 443 }, { "wss4", 443 }, { "wss6", 443 } };
+	if (!vp_has("vp_in_n")) {
+		printf("REPLAY-RESULT: skipped (trace has no entry snapshot)\n");
+		return 3;
+	}
+	size_t n = vp_u64("vp_in_n", 0);
+	if (n > ((size_t) 1 << 20)) {
+		printf("REPLAY-RESULT: skipped (string of %zu bytes too large to build natively)\n", n);
+		return 3;
+	}
+	char *s = malloc(n + 1);
+	for (size_t i = 0; i < n; i++) {
+		char k[24];
+		snprintf(k, sizeof(k), "vp_in_p%zu", i);
+		s[i] = (char) (i < 12 ? vp_u64(k, 'x') : 'x');
+		if (s[i] == 0) {
+			n = i;
+			break;
+		}
+	}
+	s[n]          = 0;
+	unsigned want = 0;
+	for (size_t i = 0; i < sizeof(tab) / sizeof(tab[0]); i++) {
+		size_t l = strlen(tab[i].s);
+		if (strncmp(s, tab[i].s, l) == 0 && (s[l] == 0 || ((s[l] == '4' || s[l] == '6') && s[l + 1] == 0)))
+			want = tab[i].port;
+	}
+	unsigned rv = nni_url_default_port(s);
+	printf("nni_url_default_port(\"%s\") -> %u; table says %u\n", s, rv, want);
+	VP_EXPECT(rv == 0 || rv == 9418 || rv == 70 || rv == 80 || rv == 443 || rv == 22 || rv == 23);
+	VP_EXPECT(rv == want);
+	free(s);
+	VP_DONE();
+}
+
+/* nni_url_canonify_uri: the string of the counterexample in a heap block of exactly
+ * strlen+1 bytes (it is rewritten in place and never grows); accepted => RFC 3986 6.2.2
+ * normal form (contract text of modules/url/contracts.h, every index instead of g_k) */
+static int
+replay_canon(void)
+{
+#define C_UPHEX(c) (((c) >= '0' && (c) <= '9') || ((c) >= 'A' && (c) <= 'F'))
+#define C_HEXV(c) ((c) <= '9' ? (c) - '0' : (c) - 'A' + 10)
+#define C_UNRES(c) (((c) >= 'a' && (c) <= 'z') || ((c) >= 'A' && (c) <= 'Z') || ((c) >= '0' && (c) <= '9') || (c) == '-' || (c) == '.' || (c) == '_' || (c) == '~')
+#define C_SEGEND(c) ((c) == '/' || (c) == 0 || (c) == '?' || (c) == '#')
+	if (!vp_has("vp_in_c0")) {
+		printf("REPLAY-RESULT: skipped (trace has no entry snapshot)\n");
+		return 3;
+	}
+	size_t  cap = vp_u64("vp_in_qcap", 16), n = 0;
+	uint8_t b[32] = { 0 };
+	if (cap > 16)
+		cap = 16;
+	for (size_t i = 0; i <= cap; i++) {
+		char k[24];
+		snprintf(k, sizeof(k), "vp_in_c%zu", i);
+		b[i] = (uint8_t) vp_u64(k, 0);
+	}
+	while (n <= cap && b[n] != 0)
+		n++;
+	if (n > cap) {
+		printf("REPLAY-RESULT: skipped (precondition: terminated within %zu bytes)\n", cap);
+		return 3;
+	}
+	char *s = malloc(n + 1);
+	memcpy(s, b, n + 1);
+	printf("nni_url_canonify_uri(\"");
+	for (size_t i = 0; i < n; i++)
+		printf(b[i] >= 0x20 && b[i] < 0x7f && b[i] != '"' && b[i] != '\\' ? "%c" : "\\x%02X", b[i]);
+	int rv = nni_url_canonify_uri(s);
+	size_t m = strnlen(s, n + 1);
+	printf("\") -> %d", rv);
+	if (m <= n)
+		printf(", now \"%s\"", s);
+	printf("\n");
+	VP_EXPECT(rv == NNG_OK || rv == NNG_EINVAL);
+	VP_EXPECT(m <= n); /* still terminated, never longer */
+	if (rv == NNG_OK && m <= n) {
+		size_t pe = 0; /* the path part ends at the first '?' or '#' */
+		while (pe < m && s[pe] != '?' && s[pe] != '#')
+			pe++;
+		for (size_t k = 0; k < m; k++) {
+			uint8_t c1 = (uint8_t) s[k + 1], c2 = k + 1 < m ? (uint8_t) s[k + 2] : 0;
+			if (s[k] == '%')
+				VP_EXPECT(C_UPHEX(c1) && C_UPHEX(c2) && !C_UNRES(C_HEXV(c1) * 16 + C_HEXV(c2)));
+			if (k < pe && s[k] == '/') {
+				VP_EXPECT(s[k + 1] != '/');
+				if (s[k + 1] == '.')
+					VP_EXPECT(!C_SEGEND(c2) && !(c2 == '.' && C_SEGEND(k + 2 < m ? (uint8_t) s[k + 3] : 0)));
+			}
+		}
+	}
+	free(s);
+	VP_DONE();
+}
+
 int
 main(int argc, char **argv)
 {
@@ -315,6 +418,10 @@ main(int argc, char **argv)
 		return replay_clone(false);
 	if (strcmp(fn, "nng_url_clone") == 0)
 		return replay_clone(true);
+	if (strcmp(fn, "nni_url_default_port") == 0)
+		return replay_port();
+	if (strcmp(fn, "nni_url_canonify_uri") == 0)
+		return replay_canon();
 	printf("REPLAY-RESULT: skipped (no native driver for %s)\n", fn);
 	return 3;
 }
